@@ -108,3 +108,30 @@ PROPS['C06'] = dict(
     exhaustive_part=True,
     scope={'quick': 'all eps-NFA n<=2,k=1 + 1500 random (<=4 states), 2 hash seeds', 'thorough': '+ n=2,k=2 exhaustive, 15000 random, 8 hash seeds'},
 )
+
+
+def bounded_only(pid, suite, text, note, funcs, rule, scope, technique=None, **kw):
+    PROPS[pid] = dict(level='exploration', technique=technique or 'bounded run-time contract checking against an independent reference semantics (labelled bounded; the deductive verifier does not reach these functions yet)',
+                      level_text=text, level_note=note, pyvc=[], lean=[], bounded=suite, bounded_only=funcs, explanation='bounded only (see level_text)',
+                      rule=rule, exhaustive_part=True, scope=scope, **kw)
+
+CFG_RULE = ('case = one grammar (exhaustive: 2 variables, 2 terminals, bodies <=2, up to 3 productions = 12384 grammars; sample: seeded random grammars with <=3 variables '
+            '(incl. reserved fresh-symbol names and non-string values), bodies <=4, <=6 productions); non-trivial = non-empty language and recursion / epsilon / unit / long production')
+CFG_NOTE = 'Trusted: specs/cfg.py (textbook derivability by length-bounded least fixpoint, generating/nullable/reachable fixpoints, finiteness by strict-cycle test); language comparisons are bounded to words of length <= 4.'
+bounded_only('C08', 'bounded.c08',
+    'Bounded stand-in only: contains / in / generate_epsilon compared with derivability (least fixpoint per variable) for all words of length <=4 over the terminals plus one unknown symbol, on the enumerated grammars, 2 hash seeds.',
+    CFG_NOTE, ['CFG.contains', 'CFG.__contains__', 'CFG.generate_epsilon', 'CYKTable', 'CFG.to_normal_form pipeline'], CFG_RULE,
+    {'quick': '12384 exhaustive + 1500 random grammars, words <=4', 'thorough': '<=4 productions exhaustive (124k) + 15000 random, 8 hash seeds'})
+bounded_only('C09', 'bounded.c09',
+    'Bounded stand-in only: each clean-up step and to_normal_form compared with the source grammar on words of length <=4 (empty word excepted where documented) and checked for the promised shape through an independent reading of the result.',
+    CFG_NOTE, ['CFG.remove_useless_symbols', 'remove_epsilon', 'eliminate_unit_productions', 'to_normal_form', '_get_generating_or_nullable', '_decompose_productions', '_get_productions_with_only_single_terminals'], CFG_RULE,
+    {'quick': '12384 exhaustive + 1500 random grammars, words <=4', 'thorough': '124k exhaustive + 15000 random, 8 hash seeds'})
+bounded_only('C10', 'bounded.c10',
+    'Bounded stand-in only: union, concatenate, closures, reverse, substitute and operator forms compared with set algebra on the bounded languages (length <=4) of the operands, on ordered pairs incl. the same object twice and reserved names.',
+    CFG_NOTE, ['CFG.substitute', 'union', 'concatenate', 'get_closure', 'get_positive_closure', 'reverse'],
+    'case = ordered pair of grammars drawn from the C08 pool (8% same object); non-trivial = both operands non-trivial',
+    {'quick': '2500 pairs', 'thorough': '25000 pairs, 8 hash seeds'})
+bounded_only('C12', 'bounded.c12',
+    'Bounded stand-in only: is_empty, is_finite, generating/nullable/reachable sets and get_words(n) (multiset equality, n=0..4 and unbounded on finite languages under a step budget) against fixpoint oracles.',
+    CFG_NOTE, ['CFG.is_empty', 'is_finite', 'get_generating_symbols', 'get_nullable_symbols', 'get_reachable_symbols', 'get_words'], CFG_RULE.replace('up to 3 productions = 12384', 'up to 2 productions = 904'),
+    {'quick': '904 exhaustive + 1500 random grammars', 'thorough': '12384 exhaustive + 15000 random, 8 hash seeds'})
